@@ -743,12 +743,8 @@ def run_edits(cssutils, ops):
     sheet = parser.parseString('')
     cssutils.log.raiseExceptions = True
     steps, viol = [], []
-    inorder_index_seen = False      # region of the known finding C08-inorder-index
-    broken_by_inorder = False       # … and the invariant did break there: what follows is a consequence
     for k, o in enumerate(ops):
         status = 'ok'
-        if o['op'] == 'ins' and o['inorder'] and o['index'] is not None and o['rule'] == 'variables':
-            inorder_index_seen = True
         try:
             if o['op'] == 'enc':
                 sheet.encoding = o['e']
@@ -782,10 +778,7 @@ def run_edits(cssutils, ops):
         cs = [i for i, r in enumerate(rules) if r.type == r.CHARSET_RULE]
         want = rules[0].encoding if cs[:1] == [0] else 'utf-8'
         w = {'step': k, 'op': op_word(o)}
-        n_before = len(viol)
         if cs not in ([], [0]):
-            if inorder_index_seen:
-                broken_by_inorder = True
             viol.append({'clause': 'there is at most one @charset rule and it is the first rule', 'detail': dict(w, charset_at=cs)})
         elif e_now != want:
             viol.append({'clause': 'sheet.encoding equals the @charset rule (utf-8 without one)',
@@ -805,10 +798,6 @@ def run_edits(cssutils, ops):
             viol.append({'clause': 'the serialisation is a byte string decodable in sheet.encoding',
                          'detail': dict(w, error=repr(x)),
                          'known': 'C08-nontext-codec' if not text_codec(e_now) else None})
-        if broken_by_inorder:
-            for v in viol[n_before:]:
-                v.setdefault('known', 'C08-inorder-index')
-                v['known'] = v['known'] or 'C08-inorder-index'
     return steps, '%s %s' % (show_rules(sheet), enc(sheet.encoding)), viol
 
 
@@ -830,51 +819,82 @@ def unrepresentable(text, e):
     return out
 
 
+# pieces a token text is made of. NAME: what `{nmchar}*` admits (IDENT, HASH, DIMENSION, FUNCTION names are read with
+# `unicodesub`); STR adds what only a string body admits (read with `stringsub`: line continuations are removed)
+NAME_PARTS = ['a', 'E', '4', '1', 'f', '0', 'c', '5', '-', '_', 'g', '\xe4', '\u20ac', '\u0414', '\u03b4', '\U0001F600', '\x80',
+              '\u0100', '\xa0', '\\\\', '\\\\', '\\41', '\\41 ', '\\41\r\n', '\\41\t', '\\41\n', '\\41\f', '\\41\r', '\\5c',
+              '\\5C ', '\\5c\\5c', '\\110000 ', '\\d800 ', '\\0 ', '\\g', '\\\xe4', '\\"', '\\ ', '\\000041', '\\0000411',
+              '\\1234567', '\\FFFFFF', '\\ffffff\t', '\\E4 ', '\\e4', '\\4', '\\{', '\\\u20ac', '\\\ud800', '\ud800']
+STR_ONLY_PARTS = [' ', ' ', "'", '\t', '\x00', '\x7f', '{', ';', '/', '*', '\\\n', '\\\r\n', '\\\r', '\\\f', '\\\n\n'.replace('\n\n', '\n')]
+STR_PARTS = NAME_PARTS + STR_ONLY_PARTS * 2
+RAW_ALPHA = ESC_ALPHA                 # anything at all (mostly not a token body): exercises escapecss itself
+
+
+def gen_body(rng, mode):
+    parts = NAME_PARTS if mode == 'name' else STR_PARTS
+    return ''.join(rng.choice(parts) for _ in range(rng.randint(0, 7)))
+
+
 def gen_escape_text(rng):
-    return ''.join(rng.choice(ESC_ALPHA) for _ in range(rng.randint(0, 10)))
+    x = rng.random()
+    if x < 0.45:
+        return gen_body(rng, 'str')
+    if x < 0.8:
+        return gen_body(rng, 'name')
+    return ''.join(rng.choice(RAW_ALPHA) for _ in range(rng.randint(0, 10)))
 
 
 def gen_unescape_text(rng):
-    alpha = ['\\', '\\', '\\', 'a', 'E', '4', '1', 'f', '0', 'C', '5', 'c', 'D', '8', ' ', '\n', '\r', '\t', '\f', '\xe4',
-             'g', '"', '\x00', '\r\n', '11', 'FFFF', '5c', '5C ']
-    return ''.join(rng.choice(alpha) for _ in range(rng.randint(0, 12)))
+    """(mode, text)"""
+    mode = 'str' if rng.random() < 0.5 else 'name'
+    return (mode, gen_body(rng, mode))
 
 
 def fixed_escape_pairs():
     texts = ['', '\xe4', '\\\xe4', '\\\\\xe4', '\\\\\\\xe4', '\\41\xe4', '\\41 \xe4', 'a\xe4b', '\\4\xe4', '\\\r\xe4',
-             '\\41\r\xe4', '\ud800', '\\\ud800', '\U0010ffff', '\x00\xe4', '\xe4\xe4', '\\', '\\\\', '\xe4\\']
+             '\\41\r\xe4', '\ud800', '\\\ud800', '\U0010ffff', '\x00\xe4', '\xe4\xe4', '\\', '\\\\', '\xe4\\', '\\\n\xe4',
+             '\\\r\n\xe4', '\\\r\xe4\n', 'a \xe4']
     return [(t, e) for t in texts for e in TARGETS]
 
 
 def fixed_unescape_texts():
-    return ['', '\\', '\\\\', '\\41', '\\41 ', '\\41  ', '\\41\r\n', '\\41\r', '\\41\rx', '\\41\n\n', '\\\\41', '\\\\\\41',
+    base = ['', '\\\\', '\\41', '\\41 ', '\\41  ', '\\41\r\n', '\\41\r', '\\41\rx', '\\41\n\n', '\\\\41', '\\\\\\41',
             '\\5c', '\\5C b', '\\5c\\5c', '\\110000', '\\110000 x', '\\10FFFF', '\\000041', '\\0000411', '\\1234567',
-            '\\d800', '\\0', '\\g', '\\\xe4', '\\41\\42', 'a\\', '\\41\\', '\\41\r\\', '\\4g', '\\FFFFFF', '\\ffffff\t']
+            '\\d800', '\\0', '\\g', '\\\xe4', '\\41\\42', '\\4g', '\\FFFFFF', '\\ffffff\t', 'a\\\nb', 'a\\\r\nb', 'a\\\rb',
+            'a\\\fb', 'a\\\r\\\nb', '\\5c\\a ', '\\5c\\\n', '\\\\\\\n', '\\41\r\\\n', '\\a b', '\\d \\a x']
+    return [(m, t) for t in base for m in ('name', 'str')]
 
 
 _tok = [None]
 
 
-def impl_unescape(cssutils, s):
-    """what the tokenizer makes of the text of a token (through a COMMENT token, whose value is the unescaped text)"""
-    if '*/' in s:
-        raise ValueError('not usable inside a comment')
+def impl_unescape(cssutils, s, mode):
+    """what the tokenizer makes of the text `s` of a token: mode 'name' through an IDENT token `x`+s (read with
+    `unicodesub`), mode 'str' through a STRING token "s" (read with `stringsub`). None when `s` is not the body of
+    exactly one such token."""
     if _tok[0] is None:
         from cssutils.tokenize2 import Tokenizer
         _tok[0] = Tokenizer()
-    toks = list(_tok[0].tokenize('/*' + s + '*/'))
-    if len(toks) != 1 or toks[0][0] != 'COMMENT':
-        raise ValueError('not one comment: %r' % (toks,))
+    text = ('x' + s) if mode == 'name' else ('"' + s + '"')
+    try:
+        toks = list(_tok[0].tokenize(text))
+    except Exception:
+        return None
+    if len(toks) != 1 or toks[0][0] != ('IDENT' if mode == 'name' else 'STRING'):
+        return None
     v = toks[0][1]
-    return v[2:-2]
+    if mode == 'name':
+        return v[1:] if v[:1] == 'x' else None
+    return v[1:-1] if len(v) >= 2 and v[0] == '"' and v[-1] == '"' else None
 
 
 _GUARD = re.compile(r'\\\\|\\[0-9a-fA-F]{1,6}(?:\r\n|[\t\r\n\f ])?|\\(.)|\\\Z', re.S)
+_GUARD_STR = re.compile(r'\\\\|\\(?:\r\n|[\n\r\f])|\\[0-9a-fA-F]{1,6}(?:\r\n|[\t\r\n\f ])?|\\(.)|\\\Z', re.S)
 
 
-def py_guard_ok(text, unrep):
+def py_guard_ok(text, unrep, mode='name'):
     """no character that must be escaped directly follows a backslash that is not itself escaped"""
-    for m in _GUARD.finditer(text):
+    for m in (_GUARD if mode == 'name' else _GUARD_STR).finditer(text):
         if m.group(1) is not None and ord(m.group(1)) in unrep:
             return False
     return True
@@ -990,6 +1010,8 @@ def reparse(cssutils, text, e):
         kf = 'C08-escaped-unrepresentable'
     elif any(t[0] == 'ATKEYWORD' and any(ord(ch) in unrep for ch in t[1]) for t in toks):
         kf = 'C08-atkeyword-escape'
+    elif any(t[0] == 'COMMENT' and any(ord(ch) in unrep for ch in t[1]) for t in toks):
+        kf = 'C08-comment-unencodable'
     return dict(res, status='diff', known=kf, clause='decoding and reparsing the serialisation gives back the same DOM',
                 detail={'utf8': ref_text.decode('utf-8'), 'serialised': d, 'reparsed': got.decode('utf-8')})
 
@@ -1001,12 +1023,12 @@ def known_still_fails(cssutils, finding):
     if fid == 'C08-escaped-unrepresentable':
         r = reparse(cssutils, w['text'], w['encoding'])
         return r['status'] == 'diff'
+    if fid == 'C08-comment-unencodable':
+        r = reparse(cssutils, w['text'], w['encoding'])
+        return r['status'] == 'diff' and r.get('known') == fid
     if fid == 'C08-atkeyword-escape':
         r = reparse(cssutils, w['text'], w['encoding'])
         return r['status'] == 'diff'
-    if fid == 'C08-inorder-index':
-        steps, final, viol = run_edits(cssutils, w['ops'])
-        return any(v.get('known') == fid for v in viol)
     if fid == 'C08-nontext-codec':
         try:
             s = _parser(cssutils).parseString(w['text'])
